@@ -697,4 +697,66 @@ def c18_exact_name_first(ctx):
     from .C18 import exact_name_first as _r
     return _r(ctx)
 
-RULES = [c18_exact_name_first, c04_vertex_curvature, c01_wiring, dispatch, keys_and_wiring, vocab, parm_offset, mode_raises, glass]
+def model_anchor(ctx):
+    """'otherwise the model glass with the file's index and Abbe number':
+    the medium that is traced for an unknown GLAS name must have n(d) = n_d
+    and (n_d - 1) / (n_F - n_C) = V_d.  AbbeMaterial.n is evaluated
+    symbolically at the d, F and C lines with np.polyval opaque: the two
+    identities must hold for every coefficient vector (a regression on
+    (n, V) alone constrains neither)."""
+    from ..rat import Ev, Rat, Sym, rat_eq, Inconclusive, ONE
+    A = Rat.atom
+    P = ctx.P
+    res = Result('MODEL-ANCHOR', 'AbbeMaterial: n(lambda_d) = index and '
+                 '(index - 1) / (n(lambda_F) - n(lambda_C)) = abbe identically')
+    gn = P.func('AbbeMaterial.n')
+    res.saw(gn)
+    lines = {'d': 0.5875618, 'F': 0.4861327, 'C': 0.6562725}
+    used = {}
+    for c in ast.walk(gn.node):
+        if isinstance(c, ast.Constant) and isinstance(c.value, float):
+            for k, v in lines.items():
+                if abs(c.value - v) < 1e-3:
+                    used[k] = c.value
+    vals = {}
+    for k, v in lines.items():
+        lam = used.get(k, v)
+        sym = Sym()
+
+        def inline(call, ev, sym=sym):
+            if unparse(call.func) == 'np.polyval' and len(call.args) == 2:
+                x = ev.ev(call.args[1])
+                return sym.opaque('polyval', (x,))
+            return None
+        ev = Ev(sym=sym, inline=inline)
+        from fractions import Fraction
+        ev.env[gn.params[0]] = Rat.const(Fraction(str(lam)))
+        try:
+            ev.run(gn.node.body)
+        except Inconclusive as e:
+            raise AnalysisError(f'AbbeMaterial.n: {e}')
+        vals[k] = (ev.returned, sym)
+    nd, symd = vals['d']
+    idx, ab = A('self.index'), A('self.abbe')
+    ok_d = isinstance(nd, Rat) and symd.eq(nd, idx)
+    # opaque atoms are named by their arguments, so values of different runs
+    # can be combined
+    nF, nC = vals['F'][0], vals['C'][0]
+    ok_v = ok_d and isinstance(nF, Rat) and isinstance(nC, Rat) and \
+        rat_eq((nF - nC) * ab, idx - ONE)
+    if ok_d and ok_v:
+        res.ok('n(d) = index, (index - 1) / (n_F - n_C) = abbe')
+    else:
+        res.fail(ctx.finding(
+            'MODEL-ANCHOR', gn, gn.node,
+            'n(lambda) is the bare regression polynomial '
+            'polyval([n, V, n^2, ...] @ coefficients, lambda): nothing makes '
+            'it pass through n_d at the d line or have the dispersion '
+            '(n_d - 1) / V_d; for GLAS ___BLANK 1 0 1.80518 25.43 the traced '
+            'medium has n(d) = n_d - 4.8e-4 and V = 25.93 (EFL of a biconvex '
+            'singlet +5.9e-4 relative), for 1.95 / 18.0 V = 20.79',
+            construct='model glass not anchored to (n_d, V_d)'))
+    return res
+
+
+RULES = [model_anchor, c18_exact_name_first, c04_vertex_curvature, c01_wiring, dispatch, keys_and_wiring, vocab, parm_offset, mode_raises, glass]
